@@ -10,24 +10,89 @@ use pnet::packet::Packet;
 
 const N: usize = 96;
 
+fn ep_v4(ip: &pnet::packet::ipv4::Ipv4Packet) -> Option<(IpAddr, IpAddr, u16, u16)> {
+    if ip.get_next_level_protocol() != IpNextHeaderProtocols::Tcp {
+        return None;
+    }
+    let tcp = TcpPacket::new(ip.payload())?;
+    Some((IpAddr::V4(ip.get_source()), IpAddr::V4(ip.get_destination()), tcp.get_source(), tcp.get_destination()))
+}
+fn ep_v6(ip: &pnet::packet::ipv6::Ipv6Packet) -> Option<(IpAddr, IpAddr, u16, u16)> {
+    if ip.get_next_header() != IpNextHeaderProtocols::Tcp {
+        return None;
+    }
+    let tcp = TcpPacket::new(ip.payload())?;
+    Some((IpAddr::V6(ip.get_source()), IpAddr::V6(ip.get_destination()), tcp.get_source(), tcp.get_destination()))
+}
 fn analyzer_endpoints(frame: &[u8]) -> Option<(IpAddr, IpAddr, u16, u16)> {
     match parse_packet(frame) {
-        IpPacket::Ipv4(ip) => {
-            if ip.get_next_level_protocol() != IpNextHeaderProtocols::Tcp {
-                return None;
-            }
-            let tcp = TcpPacket::new(ip.payload())?;
-            Some((IpAddr::V4(ip.get_source()), IpAddr::V4(ip.get_destination()), tcp.get_source(), tcp.get_destination()))
-        }
-        IpPacket::Ipv6(ip) => {
-            if ip.get_next_header() != IpNextHeaderProtocols::Tcp {
-                return None;
-            }
-            let tcp = TcpPacket::new(ip.payload())?;
-            Some((IpAddr::V6(ip.get_source()), IpAddr::V6(ip.get_destination()), tcp.get_source(), tcp.get_destination()))
-        }
+        IpPacket::Ipv4(ip) => ep_v4(&ip),
+        IpPacket::Ipv6(ip) => ep_v6(&ip),
         IpPacket::None => None,
     }
+}
+// ---- validation of the pnet contracts ASSUMED by the Verus units c15_parser_* (contracts/prelude/pnet_views.rs)
+fn be16(a: u8, b: u8) -> u16 { u16::from_be_bytes([a, b]) }
+/// exec transcription of spec an_v4
+fn model_v4(d: &[u8]) -> Option<(IpAddr, IpAddr, u16, u16)> {
+    if d.len() < 20 || d[9] != 6 { return None; }
+    let ihl = (d[0] & 0x0F) as usize;
+    let start = if ihl < 5 { 20 } else { ihl * 4 };
+    let tl = be16(d[2], d[3]) as usize;
+    let plen = if tl >= ihl * 4 { tl - ihl * 4 } else { 0 };
+    let t: &[u8] = if d.len() <= start { &[] } else { &d[start..core::cmp::min(start + plen, d.len())] };
+    if t.len() < 20 { return None; }
+    Some((IpAddr::V4(Ipv4Addr::new(d[12], d[13], d[14], d[15])), IpAddr::V4(Ipv4Addr::new(d[16], d[17], d[18], d[19])), be16(t[0], t[1]), be16(t[2], t[3])))
+}
+/// exec transcription of spec an_v6
+fn model_v6(d: &[u8]) -> Option<(IpAddr, IpAddr, u16, u16)> {
+    if d.len() < 40 || d[6] != 6 { return None; }
+    let plen = be16(d[4], d[5]) as usize;
+    let t: &[u8] = if d.len() <= 40 { &[] } else { &d[40..core::cmp::min(40 + plen, d.len())] };
+    if t.len() < 20 { return None; }
+    let w = |i: usize| be16(d[i], d[i + 1]);
+    Some((IpAddr::V6(Ipv6Addr::new(w(8), w(10), w(12), w(14), w(16), w(18), w(20), w(22))),
+          IpAddr::V6(Ipv6Addr::new(w(24), w(26), w(28), w(30), w(32), w(34), w(36), w(38))), be16(t[0], t[1]), be16(t[2], t[3])))
+}
+#[kani::proof]
+fn c15_pnet_constructors() {
+    use pnet::packet::ethernet::EthernetPacket;
+    let buf: [u8; 64] = kani::any();
+    let len: usize = kani::any();
+    kani::assume(len <= 64);
+    let d = &buf[..len];
+    assert!(EthernetPacket::new(d).is_some() == (len >= 14));
+    assert!(pnet::packet::ipv4::Ipv4Packet::new(d).is_some() == (len >= 20));
+    assert!(pnet::packet::ipv6::Ipv6Packet::new(d).is_some() == (len >= 40));
+    assert!(TcpPacket::new(d).is_some() == (len >= 20));
+    if let Some(e) = EthernetPacket::new(d) {
+        assert!(e.get_ethertype().0 == be16(d[12], d[13]));
+        assert!(e.packet().as_ptr() == d.as_ptr() && e.packet().len() == d.len());
+    }
+    if let Some(v) = pnet::packet::ipv4::Ipv4Packet::new(d) {
+        assert!(v.packet().as_ptr() == d.as_ptr() && v.packet().len() == d.len());
+    }
+    if let Some(v) = pnet::packet::ipv6::Ipv6Packet::new(d) {
+        assert!(v.packet().as_ptr() == d.as_ptr() && v.packet().len() == d.len());
+    }
+}
+#[kani::proof]
+fn c15_pnet_model_v4() {
+    let buf: [u8; N] = kani::any();
+    let len: usize = kani::any();
+    kani::assume(len <= N && len >= 20);
+    let d = &buf[..len];
+    let ip = pnet::packet::ipv4::Ipv4Packet::new(d).unwrap();
+    assert!(ep_v4(&ip) == model_v4(d));
+}
+#[kani::proof]
+fn c15_pnet_model_v6() {
+    let buf: [u8; N] = kani::any();
+    let len: usize = kani::any();
+    kani::assume(len <= N && len >= 40);
+    let d = &buf[..len];
+    let ip = pnet::packet::ipv6::Ipv6Packet::new(d).unwrap();
+    assert!(ep_v6(&ip) == model_v6(d));
 }
 fn agree(frame: &[u8]) {
     if let Some(e) = analyzer_endpoints(frame) {
